@@ -137,6 +137,35 @@ class SetRejectFilter(Filter):
         return obj not in self.rejected
 
 
+def record_pushes(en, cap=300):
+    """Bee search only: records, for the first `cap` popped combinations, the combinations pushed for
+    each of them (fresh _add_combination_ calls; re-triggered delayed ones are the same list object)."""
+    rec = {"groups": {}, "alive": [], "ids": set(), "last": None, "done": False}
+    orig = en._add_combination_
+
+    def wrapped(S, P, index_cost, changed_index=None):
+        if not rec["done"] and changed_index is not None and id(index_cost) not in rec["ids"]:
+            parent = list(index_cost)
+            parent[changed_index] -= 1
+            key = (S, P, tuple(parent))
+            g = rec["groups"].get(key)
+            if g is None and len(rec["groups"]) >= cap:
+                rec["done"] = True
+                rec["alive"] = []
+                rec["ids"] = set()
+            else:
+                rec["ids"].add(id(index_cost))
+                rec["alive"].append(index_cost)
+                if g is None:
+                    g = rec["groups"][key] = []
+                g.append(list(index_cost))
+                rec["last"] = key
+        return orig(S, P, index_cost, changed_index)
+
+    en._add_combination_ = wrapped
+    return rec
+
+
 def impl(case):
     is_u = case["enum"] in U_ENUMS
     try:
@@ -169,6 +198,7 @@ def impl(case):
         return impl_u(case, grammar)
     pg = make_weights(grammar, case["weights"])
     en = ENUMS[case["enum"]](pg, case.get("params", {}))
+    rec = record_pushes(en) if case["enum"] == "bs" and hasattr(en, "_add_combination_") else None
     if case.get("dfta_rejected") is not None:
         en.filter = dfta_reject_filter(grammar, {O.prog(w) for w in case["dfta_rejected"]}, case.get("dfta_state", 0))
     elif case.get("rejected") is not None:
@@ -201,6 +231,10 @@ def impl(case):
     res = {"table": G.enc_det_table(grammar), "start": G.enc_nt(grammar.start),
            "weights": G.enc_weights(pg.probabilities), "out": out, "ended": ended}
     # the integer / float costs the enumerator itself works with
+    if rec is not None:
+        if ended == "timeout" and not rec["done"]:
+            rec["groups"].pop(rec["last"], None)   # the interrupted pop may have pushed only some successors
+        res["pushes"] = [[list(k[2]), g] for k, g in rec["groups"].items()]
     if case["enum"] in ("bs", "cd"):
         res["costs"] = G.enc_weights(en.G.probabilities, conv=lambda c: [int(c), 1])
     return res
